@@ -261,7 +261,16 @@ impl Verify for QuantizedParameters {
     fn verify(&self) -> Result<(), VerifyError> {
         verify_range!("order", self.order(), ..=MAX_LPC_ORDER)?;
         verify_range!("shift", self.shift(), MIN_LPC_SHIFT..=MAX_LPC_SHIFT)?;
-        verify_range!("precision", self.precision(), ..=MAX_LPC_PRECISION)?;
+        verify_range!("precision", self.precision(), 1..=MAX_LPC_PRECISION)?;
+        for n in 0..self.order() {
+            let limit = 1i32 << (self.precision() - 1);
+            let coef = i32::from(self.coefs[n]);
+            verify_true!(
+                "coefs[{n}]",
+                -limit <= coef && coef < limit,
+                "must be representable in `precision` bits"
+            )?;
+        }
         Ok(())
     }
 }
